@@ -203,7 +203,10 @@ def run(c):
                       'all coefficients of child/edge transforms are dyadic, so float arithmetic of the source is exact on the generated points',
                       'n-ary ChainedTransforms are modelled as right-nested binary chains (same lookup order and offsets)',
                       'ReorderedTransforms: argsort of a permutation is modelled as the inverse permutation',
-                      'locate() is checked on the real code only (Newton iteration is numeric): order, tolerance, LocateError']
+                      'locate() is checked on the real code only (Newton iteration is numeric): order, tolerance, LocateError',
+                      'the Lean lookup theorem covers Empty/Index/Masked/Reordered/Derived/UniformDerived/Chained nestings over reversible item classes '
+                      '(simplex items with child+edge tails; all scale-type items with child tails); Plain and Structured sequences and tensor items with '
+                      'edge tails are covered by the correspondence streams and the arithmetic theorems only (the general claim is false in >=4-D: known finding)']
     changed = c.write_generated('C11.lean', X.tables_text())
     changed |= c.write_generated('C11Refs.lean', X.refs_text())
     if changed: c.log('generated tables changed')
